@@ -39,9 +39,13 @@ type testWriter struct {
 	n      int
 	writes [][]byte
 	taken  []byte // the bytes the writer actually accepted
+	during func()
 }
 
 func (w *testWriter) Write(p []byte) (int, error) {
+	if w.during != nil {
+		w.during() // something else happens to the event while the sink is writing
+	}
 	w.writes = append(w.writes, append([]byte(nil), p...))
 	switch w.kind {
 	case "fail":
@@ -118,7 +122,32 @@ func sinksMain(args []string) {
 			if !en {
 				e = &eventlogger.Event{Formatted: tbl}
 			}
+			key := map[bool]string{true: "json", false: fmtNames[cfg]}[cfg == 0]
+			var wantSnap []byte
+			restored := false
+			if e != nil {
+				wantSnap = append([]byte(nil), tbl[key]...)
+				if _, has := tbl[key]; has && p.chance(1, 3) {
+					// while the sink is writing, another pipeline's formatter stores the format again (same key,
+					// a value that fits into the old one): what is written is what was stored when the sink looked
+					restored = true
+					tw.during = func() {
+						nv := make([]byte, len(wantSnap)/2)
+						for j := range nv {
+							nv[j] = 0xEE
+						}
+						e.FormattedAs(key, nv)
+					}
+				}
+			}
 			_, err := s.Process(ctx, e)
+			if restored && err == nil && len(tw.writes) == 1 && string(tw.writes[0]) != string(wantSnap) {
+				oracle("C13 writer.Sink wrote %v; the bytes stored for %q when it looked were %v (the format was stored again, by somebody else, while the sink was writing)", tw.writes[0], key, wantSnap)
+			}
+			if restored {
+				st.hit("writer:restored-during-write")
+				tbl[key] = wantSnap // the oracles below speak about the value the sink was given
+			}
 			res := ""
 			switch {
 			case err == nil:
